@@ -55,7 +55,8 @@ type c07Meaning struct {
 
 type c07Univ struct {
 	scheme  string
-	n, q    int
+	n, q    int                   // the membership the replica under test currently has (a growth world starts smaller)
+	nFull   int                   // all replicas with keys in this universe
 	keys    []hotstuff.PrivateKey // keys[i-1] belongs to replica i; keys[n] to the outsider n+1
 	infos   []hotstuff.ReplicaInfo
 	bases   []crypto.Base
@@ -81,7 +82,7 @@ func c07Key(scheme string) hotstuff.PrivateKey {
 }
 
 func c07NewUniv(scheme string, n int) *c07Univ {
-	u := &c07Univ{scheme: scheme, n: n, q: hotstuff.QuorumSize(n), hashIdx: map[hotstuff.Hash]uint64{},
+	u := &c07Univ{scheme: scheme, n: n, nFull: n, q: hotstuff.QuorumSize(n), hashIdx: map[hotstuff.Hash]uint64{},
 		blocks: map[string]*hotstuff.Block{}, bbytes: map[string]*hotstuff.Block{}, sigMemo: map[string][]byte{}}
 	for i := 0; i <= n; i++ {
 		k := c07Key(scheme)
@@ -117,6 +118,15 @@ func c07NewUniv(scheme string, n int) *c07Univ {
 	u.mkBlock("n7", "b2", "b2", 7)   // a chain whose views do not increase towards the tip:
 	u.mkBlock("n5", "n7", "b2", 5)   //   n5 (view 5) is a child of n7 (view 7)
 	u.mkBlock("n6", "n5", "b2", 6)   //   n6 (view 6) is a child of n5
+	// a branch whose ancestors must be fetched at depth 1, 2, 3 (which of them a peer has varies per world)
+	u.mkBlock("r6", "b5", "b5", 6)
+	u.mkBlock("r7", "r6", "r6", 7)
+	u.mkBlock("r8", "r7", "r7", 8)
+	u.mkBlock("r10", "r8", "r8", 10)
+	// genuine blocks with views at and beyond the 32-bit and 63-bit boundaries
+	u.mkBlock("h31", "b2", "b2", 1<<31)
+	u.mkBlock("h32", "b2", "b2", 1<<32+2)
+	u.mkBlock("h63", "b2", "b2", 1<<63+1)
 	return u
 }
 
@@ -442,7 +452,7 @@ func (u *c07Univ) qcContribs(b *hotstuff.Block) []c07Contrib {
 	var cs []c07Contrib
 	for _, c := range u.blocks {
 		if c.Hash() == b.QuorumCert().BlockHash() && c.View() > 0 {
-			for i := 1; i <= u.q; i++ {
+			for i := 1; i <= hotstuff.QuorumSize(u.nFull); i++ { // as built by mkBlock, whatever the membership is now
 				cs = append(cs, c07Contrib{i, string(c.ToBytes())})
 			}
 		}
@@ -476,7 +486,48 @@ func (o c07Obs) term() string {
 	return fmt.Sprintf("(mkSt %d %d %d %d %d)", o.view, o.hqHash, o.hqView, o.htc, o.cview)
 }
 
+// c07Opt: the environment dimensions of one world
+type c07Opt struct {
+	cache    uint     // signature cache capacity (0 = off)
+	rot      string   // "" fixed leader | "rr" round robin
+	simple   bool     // simplehotstuff rules instead of chained (simple timeout rule only)
+	failSend int      // core.Sender.NewView / Vote: 0 succeed, 1 always fail, 2 fail when the replica's view is even
+	n0       int      // replicas configured at creation (0 = all); the "grow" stimulus adds the rest
+	stored   []string // blocks in the local store
+	remote   []string // blocks a peer can serve
+}
+
+func (o c07Opt) tag() string {
+	t := ""
+	if o.cache > 0 {
+		t += fmt.Sprintf("/cache%d", o.cache)
+	}
+	if o.rot != "" {
+		t += "/" + o.rot
+	}
+	if o.simple {
+		t += "/simplehs"
+	}
+	if o.failSend > 0 {
+		t += fmt.Sprintf("/sendfail%d", o.failSend)
+	}
+	if o.n0 > 0 {
+		t += fmt.Sprintf("/grow%d", o.n0)
+	}
+	for _, b := range o.stored {
+		if b == "r10" {
+			t += "/deep" + strings.Join(o.remote, "")
+		}
+	}
+	return t
+}
+
 type c07World struct {
+	opt       c07Opt
+	cfg       *core.RuntimeConfig
+	lr        leaderrotation.LeaderRotation
+	fetchDown bool // peers do not answer block requests during the current stimulus
+	sendFails int
 	u         *c07Univ
 	agg       bool
 	leader    int
@@ -520,11 +571,22 @@ func (r *c07RecBase) Sign(m []byte) (hotstuff.QuorumSignature, error) {
 
 type c07Sender struct{ w *c07World }
 
-func (s *c07Sender) NewView(hotstuff.ID, hotstuff.SyncInfo) error { return nil }
-func (s *c07Sender) Vote(hotstuff.ID, hotstuff.PartialCert) error { return nil }
+func (s *c07Sender) fail() error {
+	w := s.w
+	if w.opt.failSend == 1 || (w.opt.failSend == 2 && w.vs != nil && w.vs.View()%2 == 0) {
+		w.sendFails++
+		return fmt.Errorf("c07: replica not connected")
+	}
+	return nil
+}
+func (s *c07Sender) NewView(hotstuff.ID, hotstuff.SyncInfo) error { return s.fail() }
+func (s *c07Sender) Vote(hotstuff.ID, hotstuff.PartialCert) error { return s.fail() }
 func (s *c07Sender) Timeout(hotstuff.TimeoutMsg)                  {}
 func (s *c07Sender) Propose(*hotstuff.ProposeMsg)                 {}
 func (s *c07Sender) RequestBlock(_ context.Context, h hotstuff.Hash) (*hotstuff.Block, bool) {
+	if s.w.fetchDown {
+		return nil, false
+	}
 	b, ok := s.w.remote[h]
 	return b, ok
 }
@@ -665,20 +727,29 @@ func (r *c07Ruler) VerifySyncInfo(si hotstuff.SyncInfo) (*hotstuff.QuorumCert, h
 	return qc, view, tmo, err
 }
 
-func c07NewWorld(u *c07Univ, agg bool, leader int, stored []string, remote []string) *c07World {
-	w := &c07World{u: u, agg: agg, leader: leader, remote: map[hotstuff.Hash]*hotstuff.Block{}, held: map[c07Contrib]bool{},
+func c07NewWorld(u *c07Univ, agg bool, leader int, opt c07Opt) *c07World {
+	stored, remote := opt.stored, opt.remote
+	u.n, u.q = u.nFull, hotstuff.QuorumSize(u.nFull)
+	if opt.n0 > 0 {
+		u.n, u.q = opt.n0, hotstuff.QuorumSize(opt.n0)
+	}
+	w := &c07World{opt: opt, u: u, agg: agg, leader: leader, remote: map[hotstuff.Hash]*hotstuff.Block{}, held: map[c07Contrib]bool{},
 		kindOf: map[string]string{}, force: map[hotstuff.Hash]*hotstuff.Block{}, external: map[hotstuff.Hash]bool{}}
 	rn := "S"
 	if agg {
 		rn = "A"
 	}
-	w.tag = fmt.Sprintf("%s/n%d/%s/L%d", u.scheme, u.n, rn, leader)
+	w.tag = fmt.Sprintf("%s/n%d/%s/L%d%s", u.scheme, u.nFull, rn, leader, opt.tag())
 	opts := []core.RuntimeOption{core.WithSyncVerification()}
 	if agg {
 		opts = append(opts, core.WithAggregateQC())
 	}
+	if opt.cache > 0 {
+		opts = append(opts, core.WithCache(opt.cache))
+	}
 	cfg := core.NewRuntimeConfig(1, u.keys[0], opts...)
-	for i := range u.infos {
+	w.cfg = cfg
+	for i := range u.infos[:u.n] {
 		info := u.infos[i]
 		cfg.AddReplica(&info)
 	}
@@ -695,11 +766,18 @@ func c07NewWorld(u *c07Univ, agg bool, leader int, stored []string, remote []str
 	if err != nil {
 		panic(err)
 	}
-	lr := leaderrotation.NewFixed(hotstuff.ID(leader))
+	var lr leaderrotation.LeaderRotation = leaderrotation.NewFixed(hotstuff.ID(leader))
+	if opt.rot == "rr" {
+		lr = leaderrotation.NewRoundRobin(cfg)
+	}
+	w.lr = lr
 	var rs consensus.Ruleset
-	if agg {
+	switch {
+	case agg:
 		rs = rules.NewFastHotStuff(logger, cfg, w.chain)
-	} else {
+	case opt.simple:
+		rs = rules.NewSimpleHotStuff(logger, cfg, w.chain)
+	default:
 		rs = rules.NewChainedHotStuff(logger, cfg, w.chain)
 	}
 	cc := clientpb.NewCommandCache(1)
@@ -745,6 +823,8 @@ type c07Stim struct {
 	Sig    string     `json:"sig,omitempty"`  // timeout: ok other garbage wrongview
 	Block  string     `json:"blk,omitempty"`  // commit: block handed to TryCommit
 	Target string     `json:"tgt,omitempty"`  // commit: the rule's decision ("" = the real rule decides)
+	Down   bool       `json:"down,omitempty"` // peers do not answer block requests during this stimulus
+	OldN   int        `json:"oldn,omitempty"` // the certificates are built for a membership of this size (replay after growth)
 }
 
 func (s c07Stim) String() string {
@@ -763,6 +843,14 @@ func (s c07Stim) String() string {
 		return fmt.Sprintf("commit(%s->%s)", s.Block, s.Target)
 	case "deliver":
 		return "deliver(" + s.Block + ")"
+	case "grow":
+		return "grow"
+	}
+	if s.OldN > 0 {
+		si += fmt.Sprintf("[built for n=%d]", s.OldN)
+	}
+	if s.Down {
+		return s.Op + si + "[peers down]"
 	}
 	return s.Op + si
 }
@@ -803,7 +891,9 @@ func (w *c07World) apply(s c07Stim) (pan any) {
 	u := w.u
 	w.actions, w.vsis, w.okKinds, w.vcs, w.commits = nil, nil, nil, nil, nil
 	w.direct = false
+	w.fetchDown = s.Down
 	defer func() {
+		w.fetchDown = false
 		if r := recover(); r != nil {
 			pan = r
 		}
@@ -811,11 +901,24 @@ func (w *c07World) apply(s c07Stim) (pan any) {
 	var si hotstuff.SyncInfo
 	if s.SI != nil {
 		var cs []c07Contrib
-		si, cs = u.buildSI(*s.SI)
+		if s.OldN > 0 {
+			n, q := u.n, u.q
+			u.n, u.q = s.OldN, hotstuff.QuorumSize(s.OldN)
+			si, cs = u.buildSI(*s.SI)
+			u.n, u.q = n, q
+		} else {
+			si, cs = u.buildSI(*s.SI)
+		}
 		w.hold(cs)
 		w.regKinds(s.SI, si)
 	}
 	switch s.Op {
+	case "grow": // the remaining replicas of the universe join the configuration (RuntimeConfig.AddReplica)
+		for i := u.n; i < u.nFull; i++ {
+			info := u.infos[i]
+			w.cfg.AddReplica(&info)
+		}
+		u.n, u.q = u.nFull, hotstuff.QuorumSize(u.nFull)
 	case "adv":
 		w.syn.advanceView(si)
 	case "newview":
@@ -980,6 +1083,16 @@ func (w *c07World) do(o *c07Out, s c07Stim) c07Obs {
 		v.Count("moved")
 	}
 	v.CountN("advanceView-calls", len(w.vsis))
+	if w.sendFails > 0 {
+		v.CountN("sender-errors", w.sendFails)
+		w.sendFails = 0
+	}
+	if s.Down {
+		v.Count("stimulus-with-peers-down")
+	}
+	if after.view >= c07Big31 || after.hqView >= c07Big31 || after.htc >= c07Big31 {
+		v.Count("state-with-view-beyond-2^31")
+	}
 	if w.nondet > 0 {
 		v.CountN("agg-high-qc-tie", w.nondet)
 		w.nondet = 0
@@ -1056,7 +1169,16 @@ func (o *c07Out) emit(s *verifStream, term string, meta any) {
 	o.v.Case(s, term, meta)
 }
 
-var c07Stored = []string{"b1", "b2", "b3", "b4", "b5", "b6", "b7", "b8", "c3", "x9", "x30"}
+var c07Stored = []string{"b1", "b2", "b3", "b4", "b5", "b6", "b7", "b8", "c3", "x9", "x30", "h31", "h32", "h63"}
+
+// worlds in which ancestors of the r-branch (b5 <- r6 <- r7 <- r8 <- r10) have to be fetched from a peer
+var c07StoredDeep = []string{"b1", "b2", "b3", "b4", "b5", "b6", "b7", "b8", "c3", "x9", "x30", "r8", "r10"}
+
+const (
+	c07Big31 = uint64(1) << 31
+	c07Big32 = uint64(1)<<32 + 2
+	c07Big63 = uint64(1)<<63 + 1
+)
 
 // worlds for commit decisions over chains with a missing ancestor (o6) or views that do not increase towards
 // the tip (n7 <- n5 <- n6); no generated proposals are stored there (Blockchain.PruneToHeight may loop forever
@@ -1071,8 +1193,15 @@ func c07Blk(k uint64) string {
 	if k <= 8 {
 		return fmt.Sprintf("b%d", k)
 	}
-	if k == 9 {
+	switch k {
+	case 9:
 		return "x9"
+	case c07Big31:
+		return "h31"
+	case c07Big32:
+		return "h32"
+	case c07Big63:
+		return "h63"
 	}
 	return "x30"
 }
@@ -1092,6 +1221,7 @@ func c07QCCat(cv uint64, full bool) []*c07QCSpec {
 		{Kind: "valid", Block: c07Blk(c07Sub(cv, 1))},
 		{Kind: "relabel", Block: c07Blk(c07Sub(cv, 1)), Label: int64(cv)},
 		{Kind: "genesis", Label: int64(cv)},
+		{Kind: "genesis", Label: 0}, // verifies, always stale
 	}
 	if !full {
 		return cat
@@ -1102,7 +1232,6 @@ func c07QCCat(cv uint64, full bool) []*c07QCSpec {
 		&c07QCSpec{Kind: "relabel", Block: c07Blk(cv + 2), Label: int64(c07Sub(cv, 1))},
 		&c07QCSpec{Kind: "relabel", Block: c07Blk(cv + 1), Label: int64(cv)},
 		&c07QCSpec{Kind: "relabel", Block: "b1", Label: -1}, // stated view 2^64-1
-		&c07QCSpec{Kind: "genesis", Label: 0},
 		&c07QCSpec{Kind: "genesis", Label: int64(cv + 3)},
 		&c07QCSpec{Kind: "zero"},
 		&c07QCSpec{Kind: "nilsig", Block: c07Blk(cv)},
@@ -1222,7 +1351,17 @@ func (r *c07Rand) intn(n int) int { return int(r.next() % uint64(n)) }
 func (r *c07Runner) fresh(prefix []c07Stim) *c07World { return r.freshW(prefix, c07Stored) }
 
 func (r *c07Runner) freshW(prefix []c07Stim, stored []string) *c07World {
-	w := c07NewWorld(r.u, r.agg, r.leader, stored, c07Remote)
+	return r.freshO(prefix, c07Opt{stored: stored, remote: c07Remote})
+}
+
+func (r *c07Runner) freshO(prefix []c07Stim, opt c07Opt) *c07World {
+	if opt.stored == nil {
+		opt.stored = c07Stored
+	}
+	if opt.remote == nil {
+		opt.remote = c07Remote
+	}
+	w := c07NewWorld(r.u, r.agg, r.leader, opt)
 	for _, s := range prefix {
 		w.do(r.o, s)
 	}
@@ -1276,7 +1415,12 @@ func (r *c07Runner) exhaustive(thorough bool) {
 func (r *c07Runner) randSI(cv uint64) *c07SISpec {
 	// views around the current one, sometimes far away
 	d := []uint64{c07Sub(cv, 2), c07Sub(cv, 1), cv, cv, cv, cv + 1, cv + 3, cv + 20}
-	pv := func() uint64 { return d[r.rng.intn(len(d))] }
+	pv := func() uint64 {
+		if r.rng.intn(16) == 0 { // genuine certificates at and beyond the 32/63-bit boundaries
+			return []uint64{c07Big31, c07Big32, c07Big63}[r.rng.intn(3)]
+		}
+		return d[r.rng.intn(len(d))]
+	}
 	si := &c07SISpec{}
 	if r.rng.intn(10) < 6 {
 		c := c07QCCat(pv(), true)
@@ -1304,6 +1448,15 @@ func (r *c07Runner) honest(cv uint64) c07Stim {
 		return c07Stim{Op: "newview", SI: &c07SISpec{QC: &c07QCSpec{Kind: "valid", Block: c07Blk(cv)}}}
 	default:
 		if cv <= 8 {
+			// mostly the block of the current view; sometimes a later one first (parked until the view
+			// change, then replayed) or an earlier one again
+			k := cv + []uint64{0, 0, 0, 0, 1, 2}[r.rng.intn(6)]
+			if r.rng.intn(12) == 0 {
+				k = c07Sub(cv, 1)
+			}
+			if k >= 1 && k <= 8 {
+				return c07Stim{Op: "deliver", Block: c07Blk(k)}
+			}
 			return c07Stim{Op: "deliver", Block: c07Blk(cv)}
 		}
 		return c07Stim{Op: "newview", SI: &c07SISpec{TC: &c07TCSpec{Kind: "validHi", View: cv}}}
@@ -1314,10 +1467,37 @@ func (r *c07Runner) honest(cv uint64) c07Stim {
 func (r *c07Runner) random(seqs int) {
 	for i := 0; i < seqs; i++ {
 		commitWorld := i%6 == 5 && r.leader != 1
-		w := r.fresh(nil)
-		if commitWorld {
-			w = r.freshW(nil, c07StoredCommit)
+		var opt c07Opt
+		deep, grown := false, true
+		switch i % 12 {
+		case 1:
+			opt.cache = []uint{1, 16}[r.rng.intn(2)]
+		case 3:
+			opt.rot = "rr"
+		case 4:
+			opt.failSend = 1 + r.rng.intn(2)
+		case 7:
+			if r.u.nFull >= 7 {
+				opt.n0, grown = 4, false
+			} else {
+				opt.failSend, opt.rot = 1, "rr"
+			}
+		case 8:
+			deep = true
+			opt.stored = c07StoredDeep
+			opt.remote = [][]string{{"f4", "r7", "r6"}, {"f4", "r7"}, {"r6"}}[r.rng.intn(3)]
+		case 9:
+			if r.agg {
+				opt.cache = 1
+			} else {
+				opt.simple = true
+			}
 		}
+		if commitWorld {
+			opt = c07Opt{stored: c07StoredCommit}
+		}
+		w := r.freshO(nil, opt)
+		r.o.v.Count("world" + opt.tag())
 		steps := 5 + r.rng.intn(8)
 		for j := 0; j < steps; j++ {
 			cv := w.obs().view
@@ -1329,6 +1509,32 @@ func (r *c07Runner) random(seqs int) {
 					x = 5
 				}
 			}
+			if !grown && (j == 4 || r.rng.intn(5) == 0) {
+				grown = true
+				w.do(r.o, c07Stim{Op: "grow"})
+				// certificates that were enough for the old membership must not be enough any more: replay
+				// what moved the replica before, relabelled for the current view
+				w.do(r.o, c07Stim{Op: "newview", SI: &c07SISpec{TC: &c07TCSpec{Kind: "sub", View: cv + 1}}})
+				w.do(r.o, c07Stim{Op: "newview", SI: r.randSI(cv), OldN: 4})
+				continue
+			}
+			if deep {
+				down := r.rng.intn(3) == 0
+				switch r.rng.intn(6) {
+				case 0, 1:
+					s = c07Stim{Op: "commit", Block: "r10", Target: []string{"r10", "r8", "r10", ""}[r.rng.intn(4)], Down: down}
+				case 2:
+					s = c07Stim{Op: "newview", SI: &c07SISpec{QC: &c07QCSpec{Kind: "valid", Block: []string{"r7", "r6", "f4", "r8"}[r.rng.intn(4)]}}, Down: down}
+				case 3:
+					s = c07Stim{Op: "hqc", SI: &c07SISpec{QC: &c07QCSpec{Kind: "valid", Block: []string{"r7", "r6", "f4"}[r.rng.intn(3)]}}, Down: down}
+				case 4:
+					s = c07Stim{Op: "newview", SI: r.randSI(cv), Down: down}
+				default:
+					s = r.honest(cv)
+				}
+				w.do(r.o, s)
+				continue
+			}
 			switch {
 			case x < 5:
 				s = r.honest(cv)
@@ -1338,7 +1544,7 @@ func (r *c07Runner) random(seqs int) {
 				s = c07Stim{Op: "adv", SI: r.randSI(cv)}
 			case x < 14:
 				pv := []uint64{c07Sub(cv, 1), cv, cv, cv + 1, cv + 2, cv + 10, cv + 11}[r.rng.intn(7)]
-				from := r.leader
+				from := int(w.lr.GetLeader(hotstuff.View(pv)))
 				if r.rng.intn(4) == 0 {
 					from = 1 + r.rng.intn(r.u.n)
 				}
@@ -1457,6 +1663,112 @@ func (r *c07Runner) boundary() {
 	}
 }
 
+// boundary2: the environment dimensions — genuine certificates with very large views followed by small ones,
+// stale-then-fresh and invalid-then-valid deliveries, failing sender, round-robin rotation, signature cache,
+// membership growth after the components were created and used, ancestors that must be fetched at depth 1-3
+// from peers that are down at first and answer on the retry.
+func (r *c07Runner) boundary2() {
+	nv := func(si c07SISpec) c07Stim { return c07Stim{Op: "newview", SI: &si} }
+	qc := func(k, b string) *c07QCSpec { return &c07QCSpec{Kind: k, Block: b} }
+	tc := func(k string, v uint64) *c07TCSpec { return &c07TCSpec{Kind: k, View: v} }
+	ag := func(k string, v uint64, h *c07QCSpec) *c07AggSpec { return &c07AggSpec{Kind: k, View: v, High: h} }
+	type scn struct {
+		opt c07Opt
+		seq []c07Stim
+	}
+	bigViews := []c07Stim{
+		nv(c07SISpec{TC: tc("valid", c07Big32+3)}), nv(c07SISpec{TC: tc("valid", 7)}), nv(c07SISpec{TC: tc("valid", c07Big31)}),
+		nv(c07SISpec{TC: tc("valid", c07Big63)}), nv(c07SISpec{TC: tc("valid", c07Big32+3)}), nv(c07SISpec{TC: tc("sub", c07Big63+9)}),
+		nv(c07SISpec{QC: qc("valid", "h32")}), nv(c07SISpec{QC: qc("valid", "b3")}), nv(c07SISpec{QC: qc("valid", "h31")}),
+		nv(c07SISpec{QC: qc("valid", "h63")}), nv(c07SISpec{QC: qc("valid", "h32")}), nv(c07SISpec{QC: qc("sub", "h63")}),
+		nv(c07SISpec{Agg: ag("valid", c07Big32, qc("valid", "h32"))}), nv(c07SISpec{Agg: ag("valid", 9, qc("valid", "b4"))}),
+		nv(c07SISpec{Agg: ag("valid", c07Big63, qc("valid", "h63")), TC: tc("valid", 3)}), nv(c07SISpec{Agg: ag("valid", 5, qc("valid", "h31"))}),
+		{Op: "htc", SI: &c07SISpec{TC: tc("valid", c07Big31+1)}}, {Op: "hqc", SI: &c07SISpec{QC: qc("valid", "b5")}},
+	}
+	staleFresh := []c07Stim{
+		nv(c07SISpec{QC: qc("valid", "b1"), Agg: ag("valid", 1, qc("valid", "b1"))}),
+		nv(c07SISpec{QC: qc("valid", "b1"), Agg: ag("valid", 1, qc("valid", "b1"))}),     // replay: stale now
+		nv(c07SISpec{QC: qc("sub", "b2"), Agg: ag("sub", 2, nil)}),                       // invalid
+		nv(c07SISpec{QC: qc("valid", "b2"), Agg: ag("valid", 2, qc("valid", "b2"))}),     // the same view, genuine
+		nv(c07SISpec{TC: tc("valid", 1)}),                                                // stale but verified: remembered, no move
+		nv(c07SISpec{TC: tc("sub", 9), QC: qc("valid", "b3"), Agg: ag("valid", 3, nil)}), // a bad TC voids the good rest
+		nv(c07SISpec{TC: tc("valid", 3), QC: qc("garbage", "b3"), Agg: ag("garbage", 3, nil)}),
+		nv(c07SISpec{TC: tc("valid", 3)}),
+		nv(c07SISpec{TC: tc("valid", 2)}), // older than the remembered TC
+		nv(c07SISpec{TC: tc("relabel", 9), QC: qc("valid", "G")}),
+		nv(c07SISpec{TC: tc("valid", 9), QC: qc("valid", "G"), Agg: ag("valid", 1, nil)}),
+		{Op: "local", View: 5}, {Op: "local", View: 5},
+	}
+	progress := []c07Stim{
+		{Op: "deliver", Block: "b3"}, {Op: "deliver", Block: "b2"}, {Op: "deliver", Block: "b1"}, // out of order: parked, replayed
+		nv(c07SISpec{TC: tc("valid", 3), Agg: ag("valid", 3, qc("valid", "b3"))}),
+		{Op: "deliver", Block: "b4"}, {Op: "deliver", Block: "b4"}, {Op: "deliver", Block: "b5"}, {Op: "deliver", Block: "b6"},
+		nv(c07SISpec{TC: tc("valid", 6), Agg: ag("valid", 6, qc("valid", "b6"))}),
+		{Op: "deliver", Block: "b7"}, {Op: "deliver", Block: "b8"},
+	}
+	deep := []c07Stim{
+		{Op: "commit", Block: "r10", Target: "r10", Down: true}, {Op: "commit", Block: "r10", Target: "r10"},
+		{Op: "commit", Block: "r10", Target: "r10"},
+		nv(c07SISpec{QC: qc("valid", "r7")}), {Op: "hqc", SI: &c07SISpec{QC: qc("valid", "r6")}, Down: true},
+		{Op: "hqc", SI: &c07SISpec{QC: qc("valid", "r6")}}, nv(c07SISpec{QC: qc("valid", "f4")}),
+	}
+	deep2 := []c07Stim{
+		nv(c07SISpec{QC: qc("valid", "r7")}), {Op: "commit", Block: "r10", Target: "r8", Down: true},
+		{Op: "commit", Block: "r10", Target: "r8"}, {Op: "commit", Block: "r10", Target: "r10", Down: true}, {Op: "commit", Block: "r10", Target: "r10"},
+	}
+	deep2[0].Down = true
+	scns := []scn{
+		{c07Opt{}, bigViews}, {c07Opt{cache: 1}, bigViews},
+		{c07Opt{}, staleFresh}, {c07Opt{cache: 1}, staleFresh}, {c07Opt{failSend: 1, rot: "rr"}, staleFresh},
+		{c07Opt{rot: "rr"}, progress}, {c07Opt{failSend: 1}, progress}, {c07Opt{failSend: 2, rot: "rr", cache: 16}, progress},
+		{c07Opt{simple: true}, progress},
+		{c07Opt{stored: c07StoredDeep, remote: []string{"r7", "r6"}}, deep}, {c07Opt{stored: c07StoredDeep, remote: []string{"r7"}}, deep},
+		{c07Opt{stored: c07StoredDeep, remote: []string{"r6"}}, deep}, {c07Opt{stored: c07StoredDeep, remote: []string{"r7", "r6"}}, deep2},
+	}
+	for _, sc := range scns {
+		if sc.opt.simple && r.agg {
+			continue
+		}
+		w := r.freshO(nil, sc.opt)
+		for _, s := range sc.seq {
+			w.do(r.o, s)
+		}
+	}
+	if r.u.nFull < 7 {
+		return
+	}
+	// membership growth: 4 of the 7 replicas are configured when the replica is created and first used
+	// (quorum 3); then the other three join (quorum 5).  What was a quorum before is not one afterwards.
+	for _, opt := range []c07Opt{{n0: 4}, {n0: 4, cache: 16}, {n0: 4, rot: "rr", failSend: 2}} {
+		w := r.freshO(nil, opt)
+		for _, s := range []c07Stim{
+			nv(c07SISpec{TC: tc("valid", 1), Agg: ag("valid", 1, nil)}), // 3 signers: a quorum of 4
+			nv(c07SISpec{TC: tc("sub", 2), Agg: ag("sub", 2, nil)}),     // 2 signers
+			{Op: "timeout", View: 2, From: 2, Sig: "ok", SI: &c07SISpec{QC: qc("valid", "G")}},
+			{Op: "timeout", View: 2, From: 3, Sig: "ok", SI: &c07SISpec{QC: qc("valid", "G")}},
+			{Op: "grow"},
+			{Op: "timeout", View: 2, From: 4, Sig: "ok", SI: &c07SISpec{QC: qc("valid", "G")}}, // third of 7: no certificate
+			nv(c07SISpec{TC: tc("sub", 2), Agg: ag("sub", 2, nil)}),                            // 4 signers now: not a quorum of 7
+			nv(c07SISpec{QC: qc("sub", "b2")}),
+			{Op: "timeout", View: 2, From: 5, Sig: "ok", SI: &c07SISpec{QC: qc("valid", "G")}},
+			{Op: "timeout", View: 2, From: 6, Sig: "ok", SI: &c07SISpec{QC: qc("valid", "G")}}, // fifth: certificate
+			nv(c07SISpec{TC: tc("valid", 3), Agg: ag("valid", 3, nil)}),
+			nv(c07SISpec{QC: qc("valid", "b4")}),
+		} {
+			w.do(r.o, s)
+		}
+		// a certificate built for the small membership, replayed after the growth
+		w = r.freshO(nil, opt)
+		w.do(r.o, c07Stim{Op: "grow"})
+		for _, si := range []c07SISpec{{TC: tc("valid", 5)}, {QC: qc("valid", "b5")}, {Agg: ag("valid", 5, nil)},
+			{TC: tc("valid", 1), QC: qc("valid", "b1"), Agg: ag("valid", 1, qc("valid", "b1"))}} {
+			st := nv(si)
+			st.OldN = 4
+			w.do(r.o, st)
+		}
+	}
+}
+
 func c07Size(v *verifOut, search bool, q, t int) int {
 	if search {
 		return 3 * q
@@ -1495,6 +1807,7 @@ func TestVerifC07(t *testing.T) {
 						}
 					}()
 					r.boundary()
+					r.boundary2()
 					if leader == 2 {
 						r.exhaustive(v.Thorough() && !search)
 						r.random(c07Size(v, search, 90, 1500))
